@@ -55,18 +55,9 @@ def ev (e : Ev) (s : SetSt) : SetSt := { s with trace := e :: s.trace }
 /-- `cache.Get(path)` -/
 def cacheGet (s : SetSt) (p : Bytes) : Option Nat × SetSt := (lookupP p s.cache, ev (.get p) s)
 
-/-- `getTemplateFromCache`: the bare request path first, then every extension -/
-def probeCache (s : SetSt) (p : Bytes) : List Bytes → Option Nat × SetSt
-  | [] => (none, s)
-  | e :: es =>
-    match cacheGet s (p ++ e) with
-    | (some id, s') => (some id, s')
-    | (none, s') => probeCache s' p es
-
-def fromCache (s : SetSt) (p : Bytes) : Option Nat × SetSt :=
-  match cacheGet s p with
-  | (some id, s') => (some id, s')
-  | (none, s') => probeCache s' p s.exts
+/-- `getTemplateFromCache`: the request path itself - the key `getTemplate` stores under; entries
+    under path+extension belong to other names -/
+def fromCache (s : SetSt) (p : Bytes) : Option Nat × SetSt := cacheGet s p
 
 /-- `getTemplateFromLoader`'s probe: Exists(path+ext) in configured order, first hit wins -/
 def probeLoader (s : SetSt) (p : Bytes) : List Bytes → Option Bytes × SetSt
